@@ -270,18 +270,24 @@ class WKCResource(Resource):
                 def matchexp(x, v=v):
                     return x == v
 
+            # k and matchexp are bound per filter; as plain closure variables
+            # they would all refer to the last query parameter
             if k in ("rt", "if", "ct"):
                 filters.append(
-                    lambda link: any(
+                    lambda link, k=k, matchexp=matchexp: any(
                         matchexp(part)
                         for part in (" ".join(getattr(link, k, ()))).split()
                     )
                 )
             elif k in ("href",):  # x.href is single valued
-                filters.append(lambda link: matchexp(getattr(link, k)))
+                filters.append(
+                    lambda link, k=k, matchexp=matchexp: matchexp(getattr(link, k))
+                )
             else:
                 filters.append(
-                    lambda link: any(matchexp(part) for part in getattr(link, k, ()))
+                    lambda link, k=k, matchexp=matchexp: any(
+                        matchexp(part) for part in getattr(link, k, ())
+                    )
                 )
 
         while filters:
